@@ -6,7 +6,7 @@ from __future__ import annotations
 
 import itertools
 
-from vf import core, pipedrive
+from vf import core, pipedrive, rvdrive
 from vf.core import Violation
 from vf.gen import rvprog
 from vf.ref import rv32
@@ -112,7 +112,18 @@ def check(case, stats):
     mx = case.get("max", 300)
     s = pipedrive.run(case, "single", max_steps=mx)
     n = len(s.pcs)
-    f = pipedrive.run(case, "five", True, max_steps=8 * (n + 1) + 32, stop_after=(n if s.end == "bound" else None))
+    hook = None
+    if not case.get("alpha") and not case.get("boundary"):
+        # other simulation objects created later with other options (no hazard detection, single-cycle) and kept alive:
+        # options and pipeline belong to the simulation object, not to the process
+        keep = []
+
+        def hook(sim):
+            for mode, det in (("five", False), ("single", True)):
+                d = rvdrive.new_sim(mode, det)
+                rvdrive.load(d, case["prog"], case.get("regs"), case.get("mem"))
+                keep.append(d)
+    f = pipedrive.run(case, "five", True, max_steps=8 * (n + 1) + 32, stop_after=(n if s.end == "bound" else None), sim_hook=hook)
     compare(case, s, f)
     tags = {"end:" + s.end}
     mt = f.metrics
